@@ -258,7 +258,34 @@ Proof.
   intros Hh Hn Hr Hf. rewrite (stream_final _ _ _ Hr Hf), Hh. apply converges_seq. exact Hn.
 Qed.
 
+Theorem c11_stream pol (msgs : list (msg D)) s :
+  reach pol (init (script_of (items_of init_server msgs))) s ->
+  (exists rest, publications init_server (history msgs) = out s ++ rest) /\
+  (final s -> out s = publications init_server (history msgs)).
+Proof. intros Hr. split; [exact (stream_prefix _ _ _ Hr)|exact (stream_final _ _ _ Hr)]. Qed.
+
 End Proto.
+
+(** a history in which a file with a problem leaves the workspace, and a complete execution of it *)
+Definition nv_msgs : list (msg nat) :=
+  [MsgNotif 1 [(0, []); (1, [42])]; MsgReq (KDefinition true); MsgNotif 0 [(0, [])]].
+
+Lemma c11_nonvacuous : exists (msgs : list (msg nat)) (h : list (dmap nat)) (m : dmap nat) (s : st (pub nat)),
+  history msgs = h ++ [m] /\ NoDup (keys m) /\
+  reach WriterPref (init (script_of (items_of init_server msgs))) s /\ final s /\
+  ~ In 1 (keys m) /\ last_pub 1 (out s) = Some (mkPub 1 [] 1) /\ last_pub 0 (out s) = Some (mkPub 0 [] 1) /\
+  In (mkPub 1 [42] 0) (out s).
+Proof.
+  destruct (@completes (pub nat) WriterPref _ (init (script_of (items_of init_server nv_msgs))) (le_n _))
+    as (tr & s & Hrun & Hf).
+  { apply inv_init. apply script_of_ok. }
+  pose proof (reach_run _ _ _ Hrun) as Hr.
+  exists nv_msgs, [[(0, []); (1, [42])]], [(0, [])], s.
+  split; [reflexivity|]. split; [repeat constructor; intros []|]. split; [exact Hr|]. split; [exact Hf|].
+  rewrite (stream_final _ _ _ Hr Hf).
+  split; [cbn; intros [H|[]]; discriminate|]. split; [reflexivity|]. split; [reflexivity|].
+  cbn. auto.
+Qed.
 
 (* ------------------------------------------------------------------------------------------ *)
 (** * C09 *)
